@@ -307,3 +307,56 @@ func (p *Program) pointeeGuards(str *types.Func) []pointeeGuard {
 	})
 	return out
 }
+
+// silentPathRule: a node that is mandatory where it stands must print
+// something on every path.
+func silentPathRule(c *Ctx, rule string) {
+	p := c.P
+	c.Rule(rule, "Measurement.String writes the measurement's name, system iterator or regex on every path: a measurement is mandatory wherever it stands (FROM, INTO, WITH MEASUREMENT), so a path that writes none of them prints a statement with a hole (`SELECT a FROM \"\"` prints `SELECT a FROM `)")
+	fn := p.Method("Measurement", "String")
+	fd := p.FuncDecls[fn]
+	if fd == nil || fd.Body == nil {
+		c.Unk(rule, "Measurement.String", 0, "anchor not found")
+		return
+	}
+	// the if / else-if chain whose conditions mention Name, SystemIterator, Regex
+	var chain *ast.IfStmt
+	for _, st := range fd.Body.List {
+		is, ok := st.(*ast.IfStmt)
+		if !ok {
+			continue
+		}
+		mention := map[string]bool{}
+		for cur := is; cur != nil; {
+			ast.Inspect(cur.Cond, func(n ast.Node) bool {
+				if sel, ok := n.(*ast.SelectorExpr); ok {
+					mention[sel.Sel.Name] = true
+				}
+				return true
+			})
+			next, _ := cur.Else.(*ast.IfStmt)
+			cur = next
+		}
+		if mention["Name"] && mention["Regex"] {
+			chain = is
+		}
+	}
+	key := "Measurement.String: the name part is written on every path"
+	if chain == nil {
+		c.Unk(rule, key, fd.Pos(), "no if / else-if chain over Name / SystemIterator / Regex found")
+		return
+	}
+	last := chain
+	for {
+		next, ok := last.Else.(*ast.IfStmt)
+		if !ok {
+			break
+		}
+		last = next
+	}
+	if last.Else == nil {
+		c.Bad(rule, key, chain.Pos(), "the chain over Name / SystemIterator / Regex has no final else: a measurement whose name is the empty identifier \"\" (which the parser accepts) prints as nothing")
+	} else {
+		c.OK(rule, key, chain.Pos(), "final else present")
+	}
+}
